@@ -300,11 +300,10 @@ func (c *ClusterInfo) Sync(cluster *proxyv1alpha1.UpstreamCluster) error {
 
 	klog.V(5).Infof("[cluster info] syncing cluster info, name=%q", c.Cluster)
 
-	if cluster.Annotations != nil {
-		if err := c.syncFeatureGate(cluster.Annotations); err != nil {
-			// we should never get here because there is validating admission
-			return err
-		}
+	// always sync feature gates, removing the annotation (or all annotations) must switch the gates off again
+	if err := c.syncFeatureGate(cluster.Annotations); err != nil {
+		// we should never get here because there is validating admission
+		return err
 	}
 
 	// sync flow control type
@@ -567,7 +566,14 @@ func (c *ClusterInfo) syncFeatureGate(annotations map[string]string) error {
 		}
 		return nil
 	}
-	return c.featuregate.Set(featuregate)
+	// Set() merges into the current gates, so start from the defaults: a gate that is
+	// no longer listed in the annotation must fall back to its default
+	newFeatureGate := features.DefaultMutableFeatureGate.DeepCopy()
+	if err := newFeatureGate.Set(featuregate); err != nil {
+		return err
+	}
+	c.featuregate = newFeatureGate
+	return nil
 }
 
 // upstream policy    enabled
